@@ -214,7 +214,7 @@ pub fn run(ctx: &Ctx) -> i32 {
         let (text, small) = &texts[i];
         a.evals += 1;
         // a line consisting of a lone hyphen is the block terminator for one reader and content for another: unspecified
-        if *small && text.split('\n').any(|l| l == "-" || l.starts_with("-:")) { a.buckets.insert("tok:unspecified:lone-hyphen-line".into()); return; }
+        if text.split('\n').any(|l| l == "-" || l.starts_with("-:")) { a.buckets.insert("tok:unspecified:lone-hyphen-line".into()); return; }
         match guarded(|| parse_block4_fields(text)) {
             Ok(Ok(fm)) => {
                 match compare(text, &fm) {
